@@ -405,6 +405,21 @@ impl<'a> Walk<'a> {
                 self.case.fail(format!("after draining, the device holds {} of {} buffers", p, size));
             }
         }
+        // hostile epilogue (oracles only, nothing recorded for the model): the device completes
+        // every buffer id it does NOT currently hold.  With the queue fully stocked there is none;
+        // a buffer the driver dropped is completed a second time and must not be recycled twice.
+        if !self.dead {
+            self.dev.fetch();
+            let held: std::collections::BTreeSet<u16> = self.dev.q.inflight.iter().map(|c| c.head).collect();
+            for id in 0..size as u16 {
+                if !held.contains(&id) {
+                    let _ = self.dev.q.push_used_raw(id as u32, 1);
+                    if matches!(poll("none"), Got::Panic) {
+                        break;
+                    }
+                }
+            }
+        }
     }
 
     fn finish(mut self, events: usize) -> Case {
